@@ -379,6 +379,11 @@ def monitor(definition, rng, all_perms_upto=0):
     if [r["id"] for r in g.roots] != ref["roots"]:
         vs.append({"what": "roots are not the tasks nothing transitions into", "kind": "reference",
                    "got": [r["id"] for r in g.roots], "want": ref["roots"]})
+    for n in nodes:     # the composer asks the spec, the conductor asks the graph
+        if bool(g.in_cycle(n)) != bool(spec.tasks.in_cycle(n)):
+            vs.append({"what": "spec.tasks.in_cycle and graph.in_cycle disagree on a composed task",
+                       "kind": "reference", "task": n})
+            break
     cg = conducting.WorkflowConductor(native_specs.WorkflowSpec(copy.deepcopy(definition))).graph
     ser = g.serialize()
     if engine.dumps_sorted(cg.serialize()) != engine.dumps_sorted(ser):
@@ -675,7 +680,7 @@ def nontrivial(r):
 
 def run(ctx):
     tier, seed = ctx["tier"], ctx["seed"]
-    n = 420 if tier == "quick" else 11200
+    n = 420 if tier == "quick" else 16800
     all_perms_upto = 3 if tier == "quick" else 4
     base = (seed * 1000003 + zlib.crc32(b"C14")) % (2 ** 31)
     jobs = [(base + i, FAMILY_ORDER[i % len(FAMILY_ORDER)], all_perms_upto) for i in range(n)]
